@@ -32,6 +32,11 @@ def _cells():
     out.append(('triclinic', chol_from_params(3.7, 4.1, 5.9, 81, 97, 112)))
     out.append(('rotated-triclinic', chol_from_params(3.7, 4.1, 5.9, 81, 97, 112) @ rot([1, 2, 3], 37.0).T))
     out.append(('flat', np.array([[9.0, 0, 0], [4.0, 1.2, 0], [3.0, 0.5, 1.1]])))
+    # orthogonal cells (all angles exactly 90) whose vectors are NOT along x, y, z: a shortcut for orthogonal cells must
+    # not take the Cartesian axes for the cell directions
+    out.append(('ortho-axes-permuted', np.array([[0.0, 0, 5.0], [3.0, 0, 0], [0, 4.0, 0]])))
+    out.append(('ortho-quarter-turn-z', np.array([[0.0, 3.0, 0], [-4.5, 0, 0], [0, 0, 6.0]])))
+    out.append(('ortho-rotated', np.diag([3.0, 4.5, 6.0]) @ rot([1, 2, 3], 37.0).T))
     out.append(('metre-scale-triclinic', 1e-10 * chol_from_params(3.7, 4.1, 5.9, 81, 97, 112)))     # lengths held in metres
     s = SEED % 8
     out.append(('seed-slice', chol_from_params(3.0 + 0.37 * s, 4.3 - 0.21 * s, 5.2 + 0.13 * s,
